@@ -146,27 +146,169 @@ theorem lookup2_cacheOfClass (c : Class) (i m : Str) :
   rw [lookup2_foldl]
   cases c.attrs.reverse.find? (fun a => a.2.deco = some (i, m)) <;> simp [lookup2_nil]
 
-theorem searchCache_eq (o : Obj) (iname key : Str) (h : iname ≠ []) :
-    searchCache o iname key =
-      o.classes.findSome? fun c =>
-        (c.attrs.reverse.find? fun a => a.2.deco = some (iname, key)).map (·.1) := by
+/-! ### the branch of `_searchCache` for an empty interface name -/
+
+def keysOf {α : Type} (d : List (Str × α)) : List Str := d.map (·.1)
+
+theorem dictGet_isSome_iff {α : Type} (d : List (Str × α)) (k : Str) : (dictGet d k).isSome = true ↔ k ∈ keysOf d := by
+  induction d with
+  | nil => simp [dictGet, keysOf]
+  | cons e t ih =>
+    obtain ⟨k', v⟩ := e
+    by_cases h : k' = k
+    · simp [dictGet, keysOf, h]
+    · have : ¬ (k = k') := fun hh => h hh.symm
+      simp only [dictGet, h, if_false, ih, keysOf, List.map_cons, List.mem_cons, this, false_or]
+
+theorem keysOf_dictSet {α : Type} (d : List (Str × α)) (k : Str) (v : α) :
+    keysOf (dictSet d k v) = if k ∈ keysOf d then keysOf d else keysOf d ++ [k] := by
+  induction d with
+  | nil => simp [dictSet, keysOf]
+  | cons e t ih =>
+    obtain ⟨k', v'⟩ := e
+    by_cases h : k' = k
+    · subst h; simp [dictSet, keysOf]
+    · have hk : ¬ (k = k') := fun hh => h hh.symm
+      simp only [dictSet, h, if_false, keysOf, List.map_cons, List.mem_cons, hk, false_or] at ih ⊢
+      rw [ih]
+      by_cases hm : k ∈ List.map (fun x => x.fst) t <;> simp [hm]
+
+theorem keysOf_cacheAdd (cache : Cache) (i m a : Str) :
+    keysOf (cacheAdd cache i m a) = if i ∈ keysOf cache then keysOf cache else keysOf cache ++ [i] := by
+  unfold cacheAdd
+  cases h : dictGet cache i <;> simp [keysOf_dictSet]
+
+theorem findSome?_congr_mem {α β : Type} (l : List α) (f g : α → Option β) (h : ∀ a ∈ l, f a = g a) :
+    l.findSome? f = l.findSome? g := by
+  induction l with
+  | nil => rfl
+  | cons a t ih =>
+    simp only [List.findSome?_cons, h a List.mem_cons_self]
+    rw [ih (fun x hx => h x (List.mem_cons_of_mem _ hx))]
+
+/-- scanning the entries of a dict with distinct keys = scanning its keys and looking each up -/
+theorem firstSome_entries {α β : Type} (d : List (Str × α)) (f : α → Option β) (hn : (keysOf d).Nodup) :
+    firstSome (fun e => f e.2) d = (keysOf d).findSome? fun k => (dictGet d k).bind f := by
+  induction d with
+  | nil => rfl
+  | cons e t ih =>
+    obtain ⟨k, v⟩ := e
+    have hn' : (keysOf t).Nodup := (List.nodup_cons.mp hn).2
+    have hk : k ∉ keysOf t := (List.nodup_cons.mp hn).1
+    simp only [firstSome, keysOf, List.map_cons, List.findSome?_cons, dictGet, if_true, Option.bind_some]
+    cases hf : f v with
+    | some b => rfl
+    | none =>
+      simp only
+      rw [ih hn']
+      apply findSome?_congr_mem
+      intro k' hk'
+      have : k ≠ k' := fun hh => hk (hh ▸ hk')
+      simp [this]
+
+theorem nodup_keysOf_cacheAdd (cache : Cache) (i m a : Str) (h : (keysOf cache).Nodup) :
+    (keysOf (cacheAdd cache i m a)).Nodup := by
+  rw [keysOf_cacheAdd]
+  split
+  · exact h
+  · rename_i hni
+    rw [List.nodup_append]
+    refine ⟨h, by simp, ?_⟩
+    intro x hx y hy
+    simp at hy
+    subst hy
+    intro hxy; subst hxy; exact hni hx
+
+/-- the invariant of the cache-building fold, relative to the class attributes processed so far -/
+structure CacheInv (cache : Cache) (pre : List (Str × Func)) : Prop where
+  nodup : (keysOf cache).Nodup
+  scan : ∀ {β : Type} (g : Str → Option β), (keysOf cache).findSome? g = (decoIfaces pre).findSome? g
+
+theorem decoIfaces_snoc (pre : List (Str × Func)) (a : Str × Func) :
+    decoIfaces (pre ++ [a]) = decoIfaces pre ++ (match a.2.deco with | some (i, _) => [i] | none => []) := by
+  unfold decoIfaces
+  rw [List.filterMap_append]
+  cases h : a.2.deco with
+  | none => simp [h]
+  | some im => obtain ⟨i, m⟩ := im; simp [h]
+
+theorem cacheInv_step (cache : Cache) (pre : List (Str × Func)) (a : Str × Func) (h : CacheInv cache pre) :
+    CacheInv (cacheStep cache a) (pre ++ [a]) := by
+  unfold cacheStep
+  cases hd : a.2.deco with
+  | none =>
+    refine ⟨h.nodup, ?_⟩
+    intro β g
+    rw [decoIfaces_snoc, hd]; simpa using h.scan g
+  | some im =>
+    obtain ⟨i, m⟩ := im
+    simp only
+    refine ⟨nodup_keysOf_cacheAdd cache i m a.1 h.nodup, ?_⟩
+    intro β g
+    rw [decoIfaces_snoc, hd, keysOf_cacheAdd, List.findSome?_append]
+    by_cases hi : i ∈ keysOf cache
+    · rw [if_pos hi, h.scan g]
+      cases hs : (decoIfaces pre).findSome? g with
+      | some b => rfl
+      | none =>
+        have := h.scan g
+        rw [hs, List.findSome?_eq_none_iff] at this
+        simp [this i hi]
+    · rw [if_neg hi, List.findSome?_append, h.scan g]
+
+theorem cacheInv_foldl (t : List (Str × Func)) (cache : Cache) (pre : List (Str × Func)) (h : CacheInv cache pre) :
+    CacheInv (t.foldl cacheStep cache) (pre ++ t) := by
+  induction t generalizing cache pre with
+  | nil => simpa using h
+  | cons a t ih =>
+    have := ih (cacheStep cache a) (pre ++ [a]) (cacheInv_step cache pre a h)
+    simpa using this
+
+theorem cacheInv_nil : CacheInv [] [] := ⟨by simp [keysOf], by intro β g; rfl⟩
+
+/-- `_searchCache('', 'methods', key)` on one class. -/
+theorem searchAny_cacheOfClass (c : Class) (key : Str) :
+    firstSome (fun ic => dictGet ic.2 key) (cacheOfClass c) = decoratedAnyIn c.attrs key := by
+  have inv := cacheInv_foldl c.attrs [] [] cacheInv_nil
+  simp only [List.nil_append] at inv
+  unfold cacheOfClass decoratedAnyIn
+  rw [firstSome_entries _ (fun ms => dictGet ms key) inv.nodup]
+  have : (fun k => (dictGet (List.foldl cacheStep [] c.attrs) k).bind fun ms => dictGet ms key) =
+      fun k => lastDecorated c.attrs k key := by
+    funext k
+    have := lookup2_cacheOfClass c k key
+    unfold lookup2 cacheOfClass at this
+    unfold lastDecorated
+    rw [← this]
+    cases dictGet (List.foldl cacheStep [] c.attrs) k <;> rfl
+  rw [this]
+  exact inv.scan _
+
+theorem searchCache_eq (o : Obj) (iname key : Str) :
+    searchCache o iname key = o.classes.findSome? fun c => decoratedName c iname key := by
   unfold searchCache
   rw [firstSome_eq_findSome]
   congr 1
   funext c
-  simp only [h, ne_eq, not_false_eq_true, if_true]
-  exact lookup2_cacheOfClass c iname key
+  unfold decoratedName
+  by_cases h : iname ≠ []
+  · rw [if_pos h, if_pos h]
+    exact lookup2_cacheOfClass c iname key
+  · rw [if_neg h, if_neg h]
+    exact searchAny_cacheOfClass c key
 
-theorem getDecorated_eq (o : Obj) (iname member : Str) (h : iname ≠ []) :
+theorem getDecorated_eq (o : Obj) (iname member : Str) :
     getDecorated o iname member = decorated o iname member := by
   unfold getDecorated decorated
-  rw [searchCache_eq o iname member h]
+  rw [searchCache_eq o iname member]
   cases o.classes.findSome? _ <;> simp [getattrFunc_eq]
 
-theorem resolveImpl_eq (o : Obj) (iname member : Str) (h : iname ≠ []) :
+/-- `executeMethod`'s resolution is the spec's binding - for every interface name, the empty one
+included (`decoratedName`). -/
+theorem resolveImpl_eq (o : Obj) (iname member : Str) :
     resolveImpl o iname member = bound o iname member := by
   unfold resolveImpl bound
-  simp only [getattrFunc_eq, getDecorated_eq o iname member h]
+  simp only [getattrFunc_eq, getDecorated_eq o iname member]
   cases hm : attr o (attrPrefix ++ member) with
   | some f =>
     obtain ⟨fid, fdeco, fw⟩ := f
